@@ -98,8 +98,15 @@ def gen_seq(rng, cid, n):
             a = pick(); emit(f"opt {a}", size=sizes[a], maybe_const=True)
         elif r < 0.75:
             a = pick(); emit(f"flatten {a}", size=sizes[a], maybe_const=True)
-        elif r < 0.82:
+        elif r < 0.80:
             a = pick(); emit(f"copy {a}", size=sizes[a], maybe_const=mc[a])
+        elif r < 0.83:
+            # the C++ idiom `t = t->lhs()`: the handle (possibly the last owner of its node) is copy-assigned from a
+            # reference into the expression it owns; the old handle is consumed
+            if alive:
+                a = rng.choice(alive)
+                emit(f"descend {a} {rng.randrange(4)}", size=sizes[a], maybe_const=True)
+                alive.remove(a)
         elif r < 0.85:
             emit(f"print {pick()}", creates=False)
         elif r < 0.87:
